@@ -19,7 +19,7 @@ enum { OP_FRAME = 3, OP_FRAMEDEC = 4, OP_GENFUNC = 5, OP_FRAMETRACE = 12 };
 enum { K_STREAM = 0, K_COMPRESSFRAME = 1, K_COMPRESSFRAME_CDICT = 2 };
 enum { DK_NONE = 0, DK_DICT = 1, DK_CDICT = 2 };
 
-static u64 n_linked_model_frames, n_linked_reused, n_indep_reused; static u64 n_reused_differs, n_dict_derived, n_forged_size, n_headers, n_model_frames; static u64 n_calls, n_frames, n_decodes, n_switch, n_flush, n_uncomp, n_volatile, n_dec_ok, n_dec_err, n_dec_incomplete;
+static u64 n_linked_model_frames, n_linked_reused, n_indep_reused, n_oneshot_linked; static u64 n_reused_differs, n_dict_derived, n_forged_size, n_headers, n_model_frames; static u64 n_calls, n_frames, n_decodes, n_switch, n_flush, n_uncomp, n_volatile, n_dec_ok, n_dec_err, n_dec_incomplete;
 static u8* g_dictbuf;   /* 70000 bytes, blob 1 */
 static u8 g_ops[1 << 16]; static size_t g_nops;   /* call history of the current streaming session: 'U'/'u' + u32 size, 'F' */
 static void op_rec(int code, size_t n) { if (g_nops + 5 <= sizeof g_ops) { g_ops[g_nops++] = (u8)code; if (code != 'F') { u32 v = (u32)n; memcpy(g_ops + g_nops, &v, 4); g_nops += 4; } } else g_nops = sizeof g_ops + 1; }
@@ -197,8 +197,14 @@ static void frame_case(LZ4F_cctx* cctx, LZ4F_dctx* dctx, const u8* in, size_t n,
     if (kind == K_STREAM) rc = make_frame_stream(cctx, &prefs, in, n, dictKind, dictSize, cdict, &out, 0);
     else {
         size_t cap = LZ4F_compressFrameBound(n, &prefs); u8* dst = xalloc(cap); size_t res; u8* src = xalloc(n); memcpy(src, in, n);
+        if (kind == K_COMPRESSFRAME) { g_life_n = 0; g_life_init_n = 0; g_life_on = 1; }
         res = (kind == K_COMPRESSFRAME) ? LZ4F_compressFrame(dst, cap, src, n, useNull ? NULL : &prefs) : LZ4F_compressFrame_usingCDict(cctx, dst, cap, src, n, cdict, &prefs);
-        n_calls++;
+        g_life_on = 0; n_calls++;
+        /* a one-shot frame whose blocks went through LZ4_compress_fast_continue (linked blocks, fast level, no dictionary): ALSO a record of kind 7 for the
+         * end-to-end model of linked-blocks frames, with the schedule logged by the interposed calls (the source is stable: no history is ever saved) */
+        if (kind == K_COMPRESSFRAME && !LZ4F_isError(res) && dictKind == DK_NONE && g_life_n > 0 && n <= 300000) {
+            rec_t k7 = r; u32 qi; for (qi = 0; qi < r.n; qi++) if (r.p[qi] == &r.ints[qi]) k7.p[qi] = &k7.ints[qi];
+            k7.ints[0] = 7; k7.n -= 1; rec_bytes(&k7, dst, res); rec_bytes(&k7, NULL, 0); rec_bytes(&k7, g_life, g_life_n); rec_bytes(&k7, g_life_init, g_life_init_n); rec_write(&k7); n_oneshot_linked++; }
         if (kind == K_COMPRESSFRAME && 0) {}
         if (LZ4F_isError(res)) rc = 5; else vec_put(&out, dst, res);
         free(dst); free(src);
@@ -718,7 +724,7 @@ int main(int argc, char** argv)
 
     LZ4F_freeCompressionContext(cctx); LZ4F_freeDecompressionContext(dctx);
     harness_done();
-    stat_u("calls", n_calls); stat_u("reused_cctx_bytes_differ_from_fresh", n_reused_differs); stat_u("dictionary_derived_contents", n_dict_derived); stat_u("forged_content_sizes", n_forged_size); stat_u("headers_alone", n_headers); stat_u("frames_for_end_to_end_model", n_model_frames); stat_u("linked_frames_for_end_to_end_model", n_linked_model_frames); stat_u("linked_frames_on_reused_contexts", n_linked_reused); stat_u("independent_frames_on_reused_contexts", n_indep_reused); stat_u("linked_frames_blocks_logged", g_life_blocks); stat_u("linked_frames_saveDict_logged", g_life_saves); stat_u("frames", n_frames); stat_u("decodes", n_decodes); stat_u("flushes", n_flush); stat_u("uncompressed_updates", n_uncomp); stat_u("volatile_sources", n_volatile);
+    stat_u("calls", n_calls); stat_u("reused_cctx_bytes_differ_from_fresh", n_reused_differs); stat_u("dictionary_derived_contents", n_dict_derived); stat_u("forged_content_sizes", n_forged_size); stat_u("headers_alone", n_headers); stat_u("frames_for_end_to_end_model", n_model_frames); stat_u("linked_frames_for_end_to_end_model", n_linked_model_frames); stat_u("linked_frames_on_reused_contexts", n_linked_reused); stat_u("independent_frames_on_reused_contexts", n_indep_reused); stat_u("compressFrame_linked_frames_for_end_to_end_model", n_oneshot_linked); stat_u("linked_frames_blocks_logged", g_life_blocks); stat_u("linked_frames_saveDict_logged", g_life_saves); stat_u("frames", n_frames); stat_u("decodes", n_decodes); stat_u("flushes", n_flush); stat_u("uncompressed_updates", n_uncomp); stat_u("volatile_sources", n_volatile);
     stat_u("mode_switches_with_buffered_data", n_switch); stat_u("dec_complete", n_dec_ok); stat_u("dec_error", n_dec_err); stat_u("dec_incomplete", n_dec_incomplete); stat_u("records", g_nrecords); stat_u("bytes_decoded_into_one_contiguous_buffer", n_big_bytes); stat_u("dstage_traces", n_traces); stat_u("dstage_traced_calls", n_trace_calls);
     stat_u("cfails", (u64)g_cfails);
     free(data); free(g_dictbuf);
